@@ -5,6 +5,7 @@
 pub mod monitors;
 pub mod scenarios;
 pub mod stepper;
+pub mod stress;
 
 use std::future::Future;
 use std::pin::Pin;
@@ -193,6 +194,9 @@ pub struct LabConfig {
     pub with_pool: bool,
     pub origins: Vec<OriginCfg>,
     pub timeout_layer_ms: Option<u64>,
+    /// `PoolableConnection::is_open` of the harness connection means just "not closed" (as the trait documents)
+    /// instead of mirroring `HttpConnection::is_open` (= ready for the next request)
+    pub open_ignores_busy: bool,
 }
 
 pub struct World {
@@ -212,6 +216,15 @@ pub struct World {
     /// injected scheduling noise for the real-thread engine (0 = none)
     pub jitter: u32,
     pub offers: Vec<Offer>,
+    /// real-thread stress mode: dials, handshakes, responses and bodies resolve by themselves
+    pub auto: Option<AutoCfg>,
+}
+
+#[derive(Debug, Clone, Copy)]
+pub struct AutoCfg {
+    pub fail_dial_pct: u32,
+    pub fail_hs_pct: u32,
+    pub max_yields: u32,
 }
 
 pub type Shared = Arc<Mutex<World>>;
@@ -221,12 +234,28 @@ pub fn lock(w: &Shared) -> MutexGuard<'_, World> {
 }
 
 /// normalised origin: lower-case scheme and authority as written
+/// the pool's notion of an origin: lower-case scheme and authority as written (the pool key is derived from them)
 pub fn origin_of(uri: &http::Uri) -> String {
     format!(
         "{}://{}",
         uri.scheme_str().unwrap_or("").to_ascii_lowercase(),
         uri.authority().map(|a| a.as_str().to_ascii_lowercase()).unwrap_or_default()
     )
+}
+
+/// C06's notion: the scheme's default port written explicitly names the same origin (a pool may or may not
+/// merge the two spellings; either is fine), every other difference in scheme, host or port is a different origin
+pub fn origin_norm(origin: &str) -> String {
+    let (scheme, authority) = origin.split_once("://").unwrap_or(("", origin));
+    let default = match scheme {
+        "http" | "ws" => Some(":80"),
+        "https" | "wss" => Some(":443"),
+        _ => None,
+    };
+    match default {
+        Some(d) if authority.ends_with(d) => format!("{scheme}://{}", &authority[..authority.len() - d.len()]),
+        _ => origin.to_string(),
+    }
 }
 
 impl World {
@@ -246,6 +275,7 @@ impl World {
             vtime_origin: None,
             jitter: 0,
             offers: vec![],
+            auto: None,
         }
     }
 
@@ -265,6 +295,14 @@ impl World {
         let message = message.into();
         self.ev(|| format!("VIOLATION {prop} {signature}: {message}"));
         self.violations.push(Violation { prop, signature, message });
+    }
+
+    /// in auto (real-thread) mode every recorded event advances the logical clock
+    pub fn tick(&mut self) -> u64 {
+        if self.auto.is_some() {
+            self.step += 1;
+        }
+        self.step
     }
 
     pub fn vnow_ms(&self) -> u64 {
@@ -331,7 +369,7 @@ impl tower::Service<http::request::Parts> for LabTransport {
         let mut w = lock(&self.world);
         let req = parts.headers.get(REQ_HEADER).and_then(|v| v.to_str().ok()).and_then(|s| s.parse::<usize>().ok());
         let id = w.dials.len();
-        let step = w.step;
+        let step = w.tick();
         let origin = origin_of(&parts.uri);
         let h2_req = parts.version == Version::HTTP_2;
         w.dials.push(DialRec {
@@ -402,9 +440,19 @@ impl Future for DialFuture {
     fn poll(self: Pin<&mut Self>, cx: &mut Context<'_>) -> Poll<Self::Output> {
         maybe_jitter(&self.world);
         let mut w = lock(&self.world);
-        let step = w.step;
+        let step = w.tick();
+        let auto = w.auto;
         let d = &mut w.dials[self.id];
         d.first_poll_step.get_or_insert(step);
+        if let (Some(a), Res3::Pending) = (auto, d.res) {
+            // resolve by ourselves after a random number of yields
+            let r = fastish_rand();
+            if (r % (a.max_yields as u64 + 1)) != 0 {
+                cx.waker().wake_by_ref();
+                return Poll::Pending;
+            }
+            d.res = if (r >> 20) % 100 < a.fail_dial_pct as u64 { Res3::Err } else { Res3::Ok };
+        }
         match d.res {
             Res3::Pending => {
                 d.waker = Some(cx.waker().clone());
@@ -485,8 +533,17 @@ impl Future for HsFuture {
         let world = self.world.clone();
         let mut guard = lock(&world);
         let w: &mut World = &mut guard;
-        let step = w.step;
+        let step = w.tick();
+        let auto = w.auto;
         let h = &mut w.hss[self.id];
+        if let (Some(a), Res3::Pending) = (auto, h.res) {
+            let r = fastish_rand();
+            if (r % (a.max_yields as u64 + 1)) != 0 {
+                cx.waker().wake_by_ref();
+                return Poll::Pending;
+            }
+            h.res = if (r >> 20) % 100 < a.fail_hs_pct as u64 { Res3::Err } else { Res3::Ok };
+        }
         match h.res {
             Res3::Pending => {
                 h.waker = Some(cx.waker().clone());
@@ -566,7 +623,7 @@ impl std::fmt::Debug for LabConn {
 impl Drop for LabConn {
     fn drop(&mut self) {
         let mut w = lock(&self.world);
-        let step = w.step;
+        let step = w.tick();
         let c = &mut w.conns[self.id];
         c.live_handles -= 1;
         if c.live_handles == 0 {
@@ -591,7 +648,7 @@ impl Connection<Body> for LabConn {
     fn poll_ready(&mut self, cx: &mut Context<'_>) -> Poll<Result<(), Self::Error>> {
         maybe_jitter(&self.world);
         let mut w = lock(&self.world);
-        let step = w.step;
+        let step = w.tick();
         let id = self.id;
         let c = &mut w.conns[id];
         if !c.open() {
@@ -620,7 +677,12 @@ impl Connection<Body> for LabConn {
 
 impl PoolableConnection<Body> for LabConn {
     fn is_open(&self) -> bool {
-        lock(&self.world).conns[self.id].is_open()
+        let w = lock(&self.world);
+        if w.cfg.open_ignores_busy {
+            w.conns[self.id].open()
+        } else {
+            w.conns[self.id].is_open()
+        }
     }
 
     fn can_share(&self) -> bool {
@@ -707,9 +769,41 @@ impl Future for InnerFuture {
         maybe_jitter(&self.world);
         let world = self.world.clone();
         let mut w = lock(&world);
-        let step = w.step;
+        let step = w.tick();
         let rid = self.rid;
         let cid = self.conn;
+        if let (Some(a), None) = (w.auto, w.reqs[rid].respond) {
+            let r = fastish_rand();
+            if (r % (a.max_yields as u64 + 1)) != 0 {
+                cx.waker().wake_by_ref();
+                return Poll::Pending;
+            }
+            w.reqs[rid].respond = Some(false);
+            if !w.conns[cid].h2 {
+                // the response body is consumed a little later, on another task
+                let wd = world.clone();
+                tokio::spawn(async move {
+                    for _ in 0..(fastish_rand() % 4) {
+                        tokio::task::yield_now().await;
+                    }
+                    let wk = {
+                        let mut w = lock(&wd);
+                        w.tick();
+                        let c = &mut w.conns[cid];
+                        if c.busy_req == Some(rid) {
+                            c.busy = false;
+                            c.busy_req = None;
+                            c.ready_waker.take()
+                        } else {
+                            None
+                        }
+                    };
+                    if let Some(wk) = wk {
+                        wk.wake();
+                    }
+                });
+            }
+        }
         match w.reqs[rid].respond {
             None => {
                 w.reqs[rid].resp_waker = Some(cx.waker().clone());
@@ -747,7 +841,7 @@ impl Drop for InnerFuture {
         if !self.done {
             // dropped while the request was in flight (cancel / timeout): the peer never got to answer.
             let mut w = lock(&self.world);
-            let step = w.step;
+            let step = w.tick();
             let (rid, cid) = (self.rid, self.conn);
             let c = &mut w.conns[cid];
             c.holders = c.holders.saturating_sub(1);
